@@ -1,5 +1,8 @@
 /-
   C09 — Open succeeds on every directory the library produced.
+  Proved over the model of `Open`: (1) KV logs open in both RAM modes; (2) in the key+value mode `Open`
+  never returns an error on any log without a torn record, and succeeds on every log without list
+  records (list records can only make replay *panic*, on argument shapes the API never writes).
 -/
 import Nuts.Model.Tx
 import NutsProofs.Props.C10
@@ -51,5 +54,145 @@ theorem C09_witness_torn :
 /-- exactly full segment, MMap: opens (regression of D-MMAP-FULL) -/
 example : (openDB { rw := 1, startRw := 1, seg := 46 }
     [{ fid := 0, recs := [(0, { (mkRec [97] [107] [1, 2] flagSet dsKV) with status := 1 })] }]).2 = .ok () := by decide
+
+
+/-! ### every structure, key+value mode: `Open` never returns an error (fix of D-REPLAY-ABORT as a theorem) -/
+
+/-- a set record never makes the applier panic -/
+theorem applySet_no_panic (m : SetDS.St) (r : Rec) : (applySet m r).2 ≠ .panic := by
+  unfold applySet
+  split
+  · unfold SetDS.srem
+    cases SetDS.get? m r.key with
+    | none => simp
+    | some l => by_cases h : r.value.isEmpty <;> simp [h]
+  · split <;> simp
+
+/-- on `Open` (`atCommit = false`) a sorted-set record never fails and never panics -/
+theorem applyZSet_open_ok (z : ZSetA.St) (r : Rec) : (applyZSet z r false).2 = .ok () := by
+  unfold applyZSet
+  repeat' split
+  all_goals first | rfl | simp_all
+
+/-- replaying a record that is not a list record does not panic -/
+theorem applyOther_open_no_panic (s : State) (r : Rec) (h : r.ds ≠ dsList) : (applyOther s r false).2 ≠ .panic := by
+  unfold applyOther
+  split
+  · exact applySet_no_panic _ _
+  · split
+    · simp [applyZSet_open_ok]
+    · split
+      · rename_i hl; exact absurd (by simpa using hl) h
+      · simp
+
+/-- the options of the state do not change during replay -/
+theorem applyOther_opt (s : State) (r : Rec) (c : Bool) : (applyOther s r c).1.opt = s.opt := by
+  unfold applyOther
+  split
+  · rfl
+  · split
+    · rfl
+    · split <;> rfl
+
+/-- one step of replay on a structure record in the key+value mode -/
+theorem replay_cons_other (s : State) (r : Rec) (fid pos : Nat) (rest : List (Rec × Nat × Nat)) (ids : List Nat)
+    (hin : r.txid ∈ ids) (hkv : r.ds ≠ dsKV) (hm : s.opt.mode = 0) :
+    replay s ((r, fid, pos) :: rest) ids =
+      (match (applyOther s r false).2 with
+       | .panic => ((applyOther s r false).1, .panic)
+       | _ => replay (applyOther s r false).1 rest ids) := by
+  simp only [replay]
+  simp only [List.contains_eq_mem, hin, decide_true, Bool.not_true, Bool.false_eq_true, ↓reduceIte, beq_iff_eq, hkv, hm, bne_self_eq_false]
+  cases h : applyOther s r false with
+  | mk s' o => cases o <;> rfl
+
+/-- in the key+value mode replay never returns an error: errors of the structure calls are ignored
+exactly as at commit time (this is the fix of D-REPLAY-ABORT, as a theorem about every log) -/
+theorem replay_mode0_no_err (rs : List (Rec × Nat × Nat)) (ids : List Nat) (s : State)
+    (hm : s.opt.mode = 0) : (replay s rs ids).2 ≠ .err := by
+  induction rs generalizing s with
+  | nil => simp [replay]
+  | cons x rest ih =>
+    obtain ⟨r, fid, pos⟩ := x
+    by_cases hin : r.txid ∈ ids
+    · by_cases hkv : r.ds = dsKV
+      · have : replay s ((r, fid, pos) :: rest) ids = replay (applyKV s { r with status := 1 } fid pos) rest ids := by
+          simp [replay, hin, hkv]
+        rw [this]
+        exact ih _ (by simpa [applyKV] using hm)
+      · rw [replay_cons_other s r fid pos rest ids hin hkv hm]
+        have hopt := applyOther_opt s r false
+        split
+        · simp
+        · exact ih _ (by rw [hopt]; exact hm)
+    · have : replay s ((r, fid, pos) :: rest) ids = replay s rest ids := by
+        simp [replay, hin]
+      rw [this]; exact ih s hm
+
+/-- in the key+value mode replay of a log without list records succeeds, whatever the records are -/
+theorem replay_mode0_nolist_ok (rs : List (Rec × Nat × Nat)) (ids : List Nat) (s : State)
+    (hm : s.opt.mode = 0) (h : ∀ x ∈ rs, x.1.ds ≠ dsList) : (replay s rs ids).2 = .ok () := by
+  induction rs generalizing s with
+  | nil => rfl
+  | cons x rest ih =>
+    obtain ⟨r, fid, pos⟩ := x
+    have hr : r.ds ≠ dsList := h (r, fid, pos) (by simp)
+    have hrest : ∀ x ∈ rest, x.1.ds ≠ dsList := fun y hy => h y (by simp [hy])
+    by_cases hin : r.txid ∈ ids
+    · by_cases hkv : r.ds = dsKV
+      · have : replay s ((r, fid, pos) :: rest) ids = replay (applyKV s { r with status := 1 } fid pos) rest ids := by
+          simp [replay, hin, hkv]
+        rw [this]
+        exact ih _ (by simpa [applyKV] using hm) hrest
+      · rw [replay_cons_other s r fid pos rest ids hin hkv hm]
+        have hopt := applyOther_opt s r false
+        have hnp := applyOther_open_no_panic s r hr
+        split
+        · rename_i heq; exact absurd heq hnp
+        · exact ih _ (by rw [hopt]; exact hm) hrest
+    · have : replay s ((r, fid, pos) :: rest) ids = replay s rest ids := by
+        simp [replay, hin]
+      rw [this]; exact ih s hm hrest
+
+/-- **C09 (key+value mode, no torn record): `Open` never returns an error.** For every set of data
+files — any records of any structure, committed or not, from failed transactions, duplicated by a
+merge, any fill level — `Open` in `HintKeyValAndRAMIdxMode` does not fail. -/
+theorem C09_open_mode0_never_err (opt : Opts) (fs : List File) (hm : opt.mode = 0)
+    (hnt : ∀ f ∈ fileEnsure fs ((fs.map (·.fid)).foldl max 0), f.torn = false) :
+    (openDB opt fs).2 ≠ .err := by
+  unfold openDB
+  simp only
+  split
+  · simp
+  · split
+    · rename_i ht
+      rw [List.any_eq_true] at ht
+      obtain ⟨f, hf, hft⟩ := ht
+      rw [hnt f hf] at hft
+      cases hft
+    · exact replay_mode0_no_err _ _ _ hm
+
+/-- **C09 (key+value mode, KV + set + sorted-set logs): `Open` succeeds.** -/
+theorem C09_open_mode0_nolist_ok (opt : Opts) (fs : List File) (hm : opt.mode = 0)
+    (hnt : ∀ f ∈ fileEnsure fs ((fs.map (·.fid)).foldl max 0), f.torn = false)
+    (hnl : ∀ x ∈ allRecs (fileEnsure fs ((fs.map (·.fid)).foldl max 0)), x.1.ds ≠ dsList) :
+    (openDB opt fs).2 = .ok () := by
+  unfold openDB
+  simp only
+  split
+  · rfl
+  · split
+    · rename_i ht
+      rw [List.any_eq_true] at ht
+      obtain ⟨f, hf, hft⟩ := ht
+      rw [hnt f hf] at hft
+      cases hft
+    · exact replay_mode0_nolist_ok _ _ _ hm hnl
+
+/-- the hypotheses are met by a log with a set record whose removal fails at replay (`SRem` on a set
+that does not exist — the shape that used to abort `Open`, D-REPLAY-ABORT) and a sorted-set record -/
+example : (openDB {} [{ fid := 0, recs := [
+      (0, { (mkRec [98] [97, 98] [121] flagDelete dsSet) with txid := 1, status := 1 }),
+      (46, { (mkRec [98] [107, 124, 53] [118] flagZAdd dsZSet) with txid := 2, status := 1, score := 5 })] }]).2 = .ok () := by decide
 
 end NutsProofs.C09
